@@ -1498,7 +1498,12 @@ func ParseByteRange(byteRange []byte, contentLength int) (startPos, endPos int, 
 	if n == 0 {
 		v, err := ParseUint(b[n+1:])
 		if err != nil {
-			return 0, 0, err
+			if !isOverlongUint(b[n+1:]) {
+				return 0, 0, err
+			}
+			// A suffix longer than anything an int holds is longer than
+			// the content as well: it selects all of it.
+			v = contentLength
 		}
 		if contentLength <= 0 {
 			return 0, 0, fmt.Errorf("byte range %q is invalid for empty content", byteRange)
@@ -1523,7 +1528,12 @@ func ParseByteRange(byteRange []byte, contentLength int) (startPos, endPos int, 
 	}
 
 	if endPos, err = ParseUint(b); err != nil {
-		return 0, 0, err
+		if !isOverlongUint(b) {
+			return 0, 0, err
+		}
+		// A last position beyond what an int holds is beyond the end of
+		// the content as well.
+		endPos, err = contentLength, nil
 	}
 	if endPos >= contentLength {
 		endPos = contentLength - 1
@@ -1532,6 +1542,21 @@ func ParseByteRange(byteRange []byte, contentLength int) (startPos, endPos int, 
 		return 0, 0, fmt.Errorf("the start position of byte range cannot exceed the end position. byte range %q", byteRange)
 	}
 	return startPos, endPos, nil
+}
+
+// isOverlongUint tells whether ParseUint, which has refused b, did so only
+// because the number does not fit an int: b is made of digits and nothing
+// else.
+func isOverlongUint(b []byte) bool {
+	if len(b) == 0 {
+		return false
+	}
+	for _, c := range b {
+		if c < '0' || c > '9' {
+			return false
+		}
+	}
+	return true
 }
 
 func (h *fsHandler) openIndexFile(ctx *RequestCtx, dirPath string, mustCompress bool, fileEncoding string) (*fsFile, error) {
